@@ -321,6 +321,8 @@ def _snapshot(vals):
             return
         for cand in {v, v.rsplit(",", 1)[-1]}:
             try:
+                if os.path.realpath(cand).startswith(_repo()):
+                    continue                       # never touch the code under test (scripts named on a command line)
                 if os.path.isfile(cand) and os.path.getsize(cand) <= (4 << 20):
                     with _real_open(cand, "rb") as fh:
                         out[cand] = fh.read()
@@ -328,6 +330,23 @@ def _snapshot(vals):
                 pass
     walk(vals)
     return out
+
+
+def _restore(snap):
+    """put back inputs that a failed run changed (only those: an untouched file keeps its time stamps, and a prefilled
+    'stale' output that had to be restored stays registered as stale)"""
+    for path, data in snap.items():
+        try:
+            with _real_open(path, "rb") as fh:
+                same = fh.read() == data
+        except OSError:
+            same = False
+        if not same:
+            with _real_open(path, "wb") as fh:
+                fh.write(data)
+            from .. import drive
+            if path in drive._stale_sig:
+                drive._stale_sig[path] = drive._sig(path)
 
 
 def guarded(p=0.05):
@@ -354,18 +373,7 @@ def guarded(p=0.05):
                     _remove_new(absent)
                     # second run after a failed faulted one: an operation that works in place (output path = an input
                     # path) may have destroyed its own input - put the inputs back as they were
-                    for path, data in snap.items():
-                        try:
-                            with _real_open(path, "rb") as fh:
-                                same = fh.read() == data
-                        except OSError:
-                            same = False
-                        if not same:
-                            with _real_open(path, "wb") as fh:
-                                fh.write(data)
-                            from .. import drive
-                            if path in drive._stale_sig:
-                                drive._stale_sig[path] = drive._sig(path)
+                    _restore(snap)
                 box["r"] = r = fn(*a, **kw)
                 if r is None or isinstance(r, BaseException):
                     return r
